@@ -38,9 +38,11 @@ class TooLong(Exception):
 
 # ---------------------------------------------------------------------------- interpreter of skeletons
 class Interp:
-    def __init__(self, prog, docs):
+    def __init__(self, prog, docs, files=None):
         self.prog = prog
         self.docs = docs
+        self.files = files          # [(name, [JSON values])] when a file holds several values; else one value per file
+        self.file = None
         self.out = []
         self.g = {}
         self.root = None
@@ -68,6 +70,8 @@ class Interp:
         if k == "v":
             d, n = self.lookup(e[1])
             return d.get(n, UNSET)
+        if k == "file":
+            return self.file
         if k == "fld":
             v = self.root
             for p in e[1]:
@@ -263,21 +267,33 @@ class Interp:
     def run(self):
         """returns (outcome, stdout)"""
         try:
-            for r in self.prog["rules"]:
+            rules = self.prog["rules"]
+            for r in rules:
                 if r["kind"] == "BEGIN":
                     self.root = None
                     self.rule_body(r["body"], False)
-            pats = [r for r in self.prog["rules"] if r["kind"] == "pat"]
-            for doc in self.docs:
-                items = doc if isinstance(doc, list) else [doc]
-                for it in items:
-                    self.root = it
-                    for r in pats:
-                        if r["pattern"] is not None and not opref.truthy(self.ev(r["pattern"])):
-                            continue
-                        if self.rule_body(r["body"], True) == "next":
-                            break
-            for r in self.prog["rules"]:
+            pats = [r for r in rules if r["kind"] == "pat"]
+            files = self.files if self.files is not None else [("<test%d>" % (i + 1), [d]) for i, d in enumerate(self.docs)]
+            for name, values in files:
+                for doc in values:
+                    self.file = name
+                    for r in rules:
+                        if r["kind"] == "BEGINFILE":
+                            self.root = doc
+                            self.rule_body(r["body"], False)
+                    items = doc if isinstance(doc, list) else [doc]
+                    for it in items:
+                        self.root = it
+                        for r in pats:
+                            if r["pattern"] is not None and not opref.truthy(self.ev(r["pattern"])):
+                                continue
+                            if self.rule_body(r["body"], True) == "next":
+                                break
+                    for r in rules:
+                        if r["kind"] == "ENDFILE":
+                            self.root = doc
+                            self.rule_body(r["body"], False)
+            for r in rules:
                 if r["kind"] == "END":
                     self.root = None
                     self.rule_body(r["body"], False)
@@ -301,6 +317,8 @@ def rx(e):
         return "null"
     if k == "v":
         return e[1]
+    if k == "file":
+        return "$file"
     if k == "fld":
         return "$" + "".join("." + p for p in e[1])
     if k == "op":
@@ -427,7 +445,7 @@ class Render:
         for name, f in prog["funcs"].items():
             parts.append("function %s(%s) {\n%s\n}" % (name, ", ".join(f["params"]), self.seq(f["body"], 2)))
         for r in prog["rules"]:
-            head = {"BEGIN": "BEGIN ", "END": "END ", "pat": ""}[r["kind"]]
+            head = {"BEGIN": "BEGIN ", "END": "END ", "BEGINFILE": "BEGINFILE ", "ENDFILE": "ENDFILE ", "pat": ""}[r["kind"]]
             if r["kind"] == "pat" and r["pattern"] is not None:
                 head = unparen(rx(r["pattern"])) + " "
             parts.append(head + "{\n" + self.seq(r["body"], 2) + "\n}")
@@ -791,6 +809,157 @@ def build_systematic(lo, li, c, pos, wr, host):
     return {"funcs": funcs, "rules": rules}, [[{"n": 1.0}, {"n": 2.0}]], "systematic %s>%s %s %s %s in %s" % (lo, li, c, pos, wr, host)
 
 
+# ---------------------------------------------------------------------------- exit in every kind of rule
+EXIT_HOSTS = ["BEGIN", "BEGINFILE", "pat", "ENDFILE", "END"]
+EXIT_WRAPS = ["bare", "block", "else", "match", "func", "func2", "print-arg", "while", "for", "forin-arr", "forin-obj", "forin-str",
+              "func-in-loop", "loop-in-func", "nested-loops", "in-pattern"]
+
+
+def exit_files(rng, nfiles):
+    """[(name, [JSON values])]: 1-3 values per file, mostly arrays of 1-3 scalars; now and then an empty array, a scalar, an object"""
+    files, c = [], 0
+    for f in range(nfiles):
+        vals = []
+        for _ in range(rng.choice([1, 2, 2, 3])):
+            w = rng.random()
+            if w < 0.72:
+                v = []
+                for _ in range(rng.randint(1, 3)):
+                    c += 1
+                    v.append(float(c))
+            elif w < 0.8:
+                v = []
+            elif w < 0.9:
+                c += 1
+                v = float(c)
+            else:
+                c += 1
+                v = {"n": float(c)}
+            vals.append(v)
+        files.append(("<test%d>" % (f + 1), vals))
+    return files
+
+
+def activations(host, files):
+    if host in ("BEGIN", "END"):
+        return 1
+    if host == "pat":
+        return sum(len(v) if isinstance(v, list) else 1 for _, vals in files for v in vals)
+    return sum(len(vals) for _, vals in files)
+
+
+def build_exit(rng, host, wrap, files, k, ctrl=("EXT",)):
+    """a program with 1-2 rules of every kind (source order shuffled) whose rule number `which` of kind `host` executes exit
+    -- directly or from inside a block / else / match body / function / two call levels / loop / function called in a loop /
+    loop in a function / rule pattern -- during its k-th activation; labelled prints before and after everything"""
+    n = [0]
+
+    def P(extra=()):
+        n[0] += 1
+        return ("P", "L%d" % n[0], list(extra))
+
+    funcs = {}
+    hit = "hit"
+    cond = ("op", "==", ("inc", hit, False), ("n", float(k)))
+
+    def loop(kind, var, body):
+        if kind == "while":
+            return [("X", ("set", var, ("n", 0.0))), ("WH", ("op", "<", ("v", var), ("n", 3.0)), ("B", [("X", ("inc", var, True))] + body))]
+        if kind == "for":
+            return [("FOR", ("set", var, ("n", 1.0)), ("op", "<", ("v", var), ("n", 4.0)), ("inc", var, True), ("B", body))]
+        if kind == "forin-arr":
+            return [("FIN", var, None, ("arr", [("n", 1.0), ("n", 2.0), ("n", 3.0)]), ("B", body))]
+        if kind == "forin-obj":
+            return [("FIN", var + "k", var, ("obj", [("b", ("n", 2.0)), ("a", ("n", 1.0)), ("c", ("n", 3.0))]), ("B", body))]
+        return [("FIN", var + "c", var, ("s", "xyzw"), ("B", body))]       # offsets 0 1 2 3
+
+    second = ("op", "==", ("v", "lv"), ("n", 2.0))
+    if wrap == "bare":
+        stmts = [("IF", cond, ctrl, None)]
+    elif wrap == "block":
+        stmts = [("IF", cond, ("B", [P(), ctrl, P()]), P())]
+    elif wrap == "else":
+        stmts = [("IF", ("not", cond), P(), ctrl)]
+    elif wrap == "match":
+        stmts = [("X", ("match", cond, [([("b", True)], ("blk", [P(), ctrl, P()])), ([("bind",)], ("blk", [P()]))]))]
+    elif wrap == "func":
+        funcs["fx"] = {"params": [], "body": [P(), ctrl, P()]}
+        stmts = [("IF", cond, ("B", [("X", ("call", "fx", [])), P()]), None)]
+    elif wrap == "func2":
+        funcs["fy"] = {"params": ["pa"], "body": [P([("v", "pa")]), ("IF", ("op", "==", ("v", "pa"), ("n", 7.0)), ctrl, None), P(), ("RET", ("n", 1.0))]}
+        funcs["fx"] = {"params": [], "body": [P(), ("P", "Lr", [("call", "fy", [("n", 7.0)])]), P(), ("RET", ("n", 2.0))]}
+        stmts = [("IF", cond, ("B", [("X", ("set", "res", ("call", "fx", []))), P([("v", "res")])]), None)]
+    elif wrap == "print-arg":
+        funcs["fx"] = {"params": [], "body": [P(), ctrl, ("RET", ("n", 5.0))]}
+        stmts = [("IF", cond, ("P", "La", [("n", 1.0), ("call", "fx", [])]), None)]
+    elif wrap in ("while", "for", "forin-arr", "forin-obj", "forin-str"):
+        stmts = [("IF", cond, ("B", loop(wrap, "lv", [P([("v", "lv")]), ("IF", second, ctrl, None), P()]) + [P()]), None)]
+    elif wrap == "func-in-loop":
+        funcs["fx"] = {"params": ["pa"], "body": [P([("v", "pa")]), ("IF", ("op", "==", ("v", "pa"), ("n", 2.0)), ctrl, None), P()]}
+        lk = rng.choice(["while", "for", "forin-arr", "forin-obj", "forin-str"])
+        stmts = [("IF", cond, ("B", loop(lk, "lv", [("X", ("call", "fx", [("v", "lv")])), P()]) + [P()]), None)]
+    elif wrap == "loop-in-func":
+        lk = rng.choice(["while", "for", "forin-arr", "forin-obj", "forin-str"])
+        funcs["fx"] = {"params": [], "body": [P()] + loop(lk, "lv", [P([("v", "lv")]), ("IF", second, ctrl, None), P()]) + [P()]}
+        stmts = [("IF", cond, ("B", [("X", ("call", "fx", [])), P()]), None)]
+    elif wrap == "nested-loops":
+        lo, li = rng.choice(["while", "for", "forin-arr"]), rng.choice(["while", "for", "forin-arr", "forin-obj", "forin-str"])
+        inner = loop(li, "lv", [P([("v", "ov"), ("v", "lv")]), ("IF", ("op", "&&", ("op", "==", ("v", "ov"), ("n", 2.0)), second), ctrl, None), P()])
+        stmts = [("IF", cond, ("B", loop(lo, "ov", inner + [P()]) + [P()]), None)]
+    else:       # in-pattern: the rule's pattern calls a function that executes exit
+        funcs["fx"] = {"params": [], "body": [P(), ("IF", cond, ctrl, None), P(), ("RET", ("b", rng.random() < 0.7))]}
+        stmts = []
+    rules = []
+    which = rng.choice([0, 0, 1])
+    for kind in EXIT_HOSTS:
+        cnt = rng.choice([1, 2, 2]) if kind != host else max(which + 1, rng.choice([1, 2, 3]))
+        for j in range(cnt):
+            extra = [("file",)] if kind in ("BEGINFILE", "pat", "ENDFILE") else []
+            if kind == "pat" and not any(isinstance(v, dict) for _, vals in files for v in vals):
+                extra.append(("fld", []))
+            body = [P(extra)]
+            pattern = None
+            if kind == host and j == which:
+                if wrap == "in-pattern":
+                    pattern = ("call", "fx", [])
+                body += stmts + [P()]
+            elif rng.random() < 0.4:
+                body.append(P())
+            rules.append({"kind": kind, "pattern": pattern, "body": body})
+    rng.shuffle(rules)
+    init = [("X", ("set", v, ("n", 0.0))) for v in (hit, "lv", "ov", "lvk", "lvc", "res")]
+    rules.insert(0, {"kind": "BEGIN", "pattern": None, "body": init})
+    return {"funcs": funcs, "rules": rules}
+
+
+def exit_family(rng, thorough):
+    """[(prog, files, what, prog without the exit)]"""
+    out = []
+    for host in EXIT_HOSTS:
+        for wrap in EXIT_WRAPS:
+            if wrap == "in-pattern" and host != "pat":
+                continue
+            for nfiles in (1, 2, 3):
+                reps = 3 if thorough else 1
+                for rep in range(reps):
+                    for _ in range(20):
+                        files = exit_files(rng, nfiles)
+                        acts = activations(host, files)
+                        if acts >= 1:
+                            break
+                    else:
+                        continue
+                    ks = sorted({1, min(2, acts), acts, rng.randint(1, acts)}) if thorough else [rng.choice(sorted({1, 1, min(2, acts), max(1, acts - 1)}))]
+                    for k in ks:
+                        st = rng.getstate()
+                        prog = build_exit(rng, host, wrap, files, k)
+                        rng.setstate(st)
+                        noexit = build_exit(rng, host, wrap, files, k, ("P", "Lnoexit", []))
+                        out.append((prog, files, "exit in %s (%s), activation %d, %d file(s) holding %s value(s)" % (
+                            {"pat": "a pattern rule"}.get(host, host), wrap, k, nfiles, "/".join(str(len(v)) for _, v in files)), noexit))
+    return out
+
+
 DANGLING = [
     ('if (a) if (b) print "X" else print "Y"', lambda a, b, c: ["X"] if a and b else ["Y"] if a else []),
     ('if (a) if (b) print "X"\n else print "Y"', lambda a, b, c: ["X"] if a and b else ["Y"] if a else []),
@@ -813,7 +982,11 @@ class C07(Check):
             "the input document, break/continue/return/next/exit at arbitrary positions, for-in over arrays/objects (key order)/"
             "strings (multi-byte, empty) with and without the second variable, rendered with random braces/separators; expected "
             "trace from an independent interpreter of the skeleton. thorough adds every ordered pair of loop kinds x control "
-            "statement x position x wrapper x host, and all dangling-else truth combinations; for-in loops (arrays, objects, strings; "
+            "statement x position x wrapper x host, and all dangling-else truth combinations; exit executed in every kind of rule "
+            "(BEGIN, BEGINFILE, pattern rule, its pattern, ENDFILE, END; 1-3 rules of each kind in shuffled source order) x 16 ways of "
+            "reaching it (bare, block, else, match body, function, two call levels, argument of print, the five loop kinds, function in "
+            "a loop, loop in a function, nested loops) x 1-3 input files holding 1-3 values each x the activation at which it fires: "
+            "nothing runs afterwards; for-in loops (arrays, objects, strings; "
             "held in a variable, a member, the document, a parameter) whose body changes the iterated collection (push / pop / "
             "popfirst / element stores / auto-fill / reassignment under guards, nested loops over the same array, `for (x in x)`): "
             "the elements present at loop start are visited once each, in order; non-trivial = a loop inside a loop "
@@ -824,10 +997,10 @@ class C07(Check):
         n = 0
         thorough = tier == "thorough"
 
-        def add(prog, docs, what, nontrivial, renderings=1):
+        def add(prog, docs, what, nontrivial, renderings=1, files=None):
             nonlocal n
             try:
-                want = Interp(prog, docs).run()
+                want = Interp(prog, docs, files).run()
             except (TooLong, AssertionError):
                 return False
             if len(want[1]) > 20000 or (what == "random" and want[1].count("\n") < 4 and rng.random() < 0.9):
@@ -836,8 +1009,11 @@ class C07(Check):
                 text = Render(rng).program(prog)
                 cid = "t%d" % n
                 n += 1
-                inputs = [json.dumps(d, ensure_ascii=False) for d in docs]
-                cases.append(Case(cid, simple_run(cid, text, inputs), {"prog": text, "input": "\n".join(inputs), "what": what,
+                if files is not None:
+                    inputs = ["\n".join(json.dumps(v, ensure_ascii=False) for v in vals) for _, vals in files]
+                else:
+                    inputs = [json.dumps(d, ensure_ascii=False) for d in docs]
+                cases.append(Case(cid, simple_run(cid, text, inputs), {"prog": text, "input": "\n".join(inputs) if files is None else inputs, "what": what,
                                                                         "want_outcome": want[0], "want_stdout": want[1]}, nontrivial))
             return True
 
@@ -891,6 +1067,14 @@ class C07(Check):
                 continue
             add_text(b["prog"], b["input"], b["want"], b["what"], b["visits"] >= 2)
             made += 1
+        # exit executed in every kind of rule (and from functions / loops / matches / patterns reached from it), 1-3 files holding
+        # several values each: nothing at all runs afterwards.  non-trivial = the same program without the exit prints more
+        for prog, files, what, noexit in exit_family(rng, thorough):
+            try:
+                longer = len(Interp(noexit, None, files).run()[1]) > len(Interp(prog, None, files).run()[1])
+            except (TooLong, AssertionError):
+                longer = False
+            add(prog, None, what, longer, 1, files)
         return cases
 
     def oracle(self, case, impl):
